@@ -9,6 +9,7 @@
 #include <igris/datastruct/pool.h>
 
 #include <map>
+#include <set>
 #include <memory>
 
 using namespace kit;
@@ -367,6 +368,28 @@ namespace
                 by_pool.put(c1);
                 if (by_pool.avail() != 3) violate("C10/bystander", "a second pool working next to the one under test reports %zu free cells after everything was given back", by_pool.avail());
             };
+            if (kind == 0)
+            {
+                // one pool head fed from two zones: the second zone is engaged while cells of the first are still free
+                std::unique_ptr<char[]> za(new char[3 * 16]), zb(new char[2 * 16]);
+                pool_head two;
+                pool_init(&two);
+                pool_engage(&two, za.get(), 3 * 16, 16);
+                void *first = pool_alloc(&two);
+                pool_engage(&two, zb.get(), 2 * 16, 16);
+                if (pool_avail(&two) != 4) violate("C10/pool-avail@c-pool", "a pool fed from a zone of 3 cells (1 taken) and then a zone of 2 cells reports %zu free cells", (size_t)pool_avail(&two));
+                std::set<void *> got = {first};
+                for (int q = 0; q < 4; q++)
+                {
+                    void *c = pool_alloc(&two);
+                    bool inside = c && (((char *)c >= za.get() && (char *)c < za.get() + 48) || ((char *)c >= zb.get() && (char *)c < zb.get() + 32));
+                    if (!inside || !got.insert(c).second) violate("C10/pool-null-before-capacity@c-pool", "a pool fed from two zones (5 cells) handed out %p as cell number %d", c, q + 2);
+                }
+                if (pool_alloc(&two) != nullptr) violate("C10/pool-over-capacity@c-pool", "a pool fed from two zones (5 cells) handed out a sixth cell");
+                for (void *c : got) pool_free(&two, c);
+                if (pool_avail(&two) != 5) violate("C10/pool-avail@c-pool", "a pool fed from two zones reports %zu free cells after all 5 were given back", (size_t)pool_avail(&two));
+                probe("pool_fed_from_two_zones");
+            }
             auto avail = [&]() -> size_t { return kind == 0 ? pool_avail(&ph) : kind == 1 ? ip.avail() : sop->avail(); };
             auto check = [&](const char *when) {
                 bystander();
